@@ -801,6 +801,13 @@ func genBoundary(r *rng.R, cw *casefile.Writer) {
 func genRebuild(r *rng.R, cw *casefile.Writer) {
 	esz := int64(cache.NewCache[[]byte](nil, nil).VerifEntrySize())
 	n := r.Range(200, 260)
+	p := r.Range(1, 2)
+	if r.Bool() { // make (n+p) a multiple of 10, so that "len*10 > maxPayloadSize" is also met with equality
+		n -= (n + p) % 10
+		if n < 200 {
+			n += 10
+		}
+	}
 	w := newWorld(uint64(70*n - 500))
 	w.do(Evt{Op: "new"})
 	if r.Chance(1, 3) {
@@ -808,7 +815,6 @@ func genRebuild(r *rng.R, cw *casefile.Writer) {
 	}
 	w.do(Evt{Op: "fill", C: 0, K: 100, N: n, V: 1000, Sz: 70 - esz})
 	w.do(Evt{Op: "rotate"})
-	p := r.Range(1, 2)
 	thr := (n+p)/10 - p // survivors + parked <= (n+p)/10  <=>  rebuild
 	m := r.Intn(3)
 	if r.Chance(2, 3) {
